@@ -281,3 +281,53 @@ class Mvp(Contract):
                 total = total + _mvp_value(block, o, a["subtract_gs"])
         val = z3.RealVal(result) if isinstance(result, int) else as_expr(result).f["val"]
         return [("is-the-sum-over-the-blocks-of-the-row-through-their-ADC(n)-orders", val == total)]
+
+
+# --- expectation_value: all blocks of the ADC(n) matrix through their orders --------------------
+def _evb_value(block, o, sub):
+    key = ",".join(block) if isinstance(block, tuple) else block
+    f = M.fn(f"EVBLOCK[{key}]", z3.IntSort(), z3.BoolSort(), z3.RealSort())
+    return f(term(o) if not isinstance(o, int) else z3.IntVal(o), term(sub))
+
+
+@register
+class _ExpValBlockOrderCallers(Contract):
+    key = SM + ".expectation_value_block_order"
+    props = []
+    assumed = True
+    note = "X_I M_IJ Y_J for one block and order (left amplitude vector times mvp_block_order; not under contract)"
+
+    def apply(self, vc, a):
+        e = mk_expr(_evb_value(a["block"], a["order"], a["subtract_gs"]), False)
+        e.f["stamps"] = frozenset()
+        return e
+
+
+@register
+class SecularExpectationValue(Contract):
+    key = SM + ".expectation_value"
+    props = ["C03"]
+    CASES = [(n, sel, var) for n in range(0, 5) for sel in ("all", "zero", "highest", "beyond")
+             for var in ("pp", "ip", "dip")]
+    split_first_choice = len(CASES)
+
+    def setup(self, vc):
+        n, sel, var = self.CASES[vc.choose(len(self.CASES), "case")]
+        order = {"all": None, "zero": 0, "highest": n, "beyond": n + 1}[sel]
+        vc.ghost["_sev"] = {"n": n, "order": order, "min": c04.VARIANTS[var][0]}
+        return {"self": new_sm(vc, var), "adc_order": n, "order": order,
+                "subtract_gs": Sym(vc.fresh_bool("subtract_gs"))}
+
+    def post(self, vc, a, result):
+        st = vc.ghost["_sev"]
+        n, order, ms = st["n"], st["order"], st["min"]
+        total = z3.RealVal(0)
+        for ka in range(n // 2 + 1):
+            for kb in range(n // 2 + 1):
+                mx = n - ka - kb
+                block = (_class_space(ms, ka), _class_space(ms, kb))
+                orders = range(mx + 1) if order is None else ([order] if mx >= order else [])
+                for o in orders:
+                    total = total + _evb_value(block, o, a["subtract_gs"])
+        val = z3.RealVal(result) if isinstance(result, int) else as_expr(result).f["val"]
+        return [("is-the-sum-over-all-blocks-of-the-ADC(n)-matrix-through-their-orders", val == total)]
